@@ -400,7 +400,23 @@ def _grammar_values(prop, rec, text, res, ast, bad):
     try:
         sh = S.shadow(res)
     except RecursionError:
-        bad("grammar/malformed", "parse returned a cyclic/too deep tree", "")
+        # too deep for the monitor's own recursion, or cyclic?  an iterative walk with a seen-set decides
+        seen, stack, cyclic = set(), [res], False
+        while stack and not cyclic:
+            x = stack.pop()
+            if x is None:
+                continue
+            if id(x) in seen:
+                cyclic = True
+                break
+            seen.add(id(x))
+            stack.append(getattr(x, "left", None))
+            stack.append(getattr(x, "right", None))
+        if cyclic:
+            bad("grammar/malformed", "parse returned a cyclic tree", "")
+        else:
+            rec.skip("grammar: tree too deep for the monitor's structural comparison")
+            rec.arm("grammar:too-deep-to-compare")
         return
     if S.audit(res, expr=True):
         rec.arm("grammar:tree-malformed-but-compared")
